@@ -96,7 +96,7 @@ Ltac link_own HI :=
   try (unfold link_state_ok, setT; simpl; rewrite tget_tset_same; auto);
   try (intros e' [Hc|Hin]; [inversion Hc; subst; auto|auto]).
 
-Lemma Inv16_env calls s a s' : Inv16 s -> step_env calls s a = Some s' -> Inv16 s'.
+Lemma Inv16_env calls s a s' : Inv16 s -> step_env fixed calls s a = Some s' -> Inv16 s'.
 Proof. intros HI H. unfold step_env in H. brk H; tf2; inv16_full. Qed.
 
 Lemma Inv16_caller calls s i st s' : Inv16 s -> step_caller calls s i st = Some s' -> Inv16 s'.
